@@ -764,7 +764,13 @@ func (m *Machine) step(th *Thread, fr *Frame) {
 			m.raiseRuntime("cannot convert slice to array pointer: length too short")
 		}
 		if s.off != 0 || len(s.arr.val.(*ArrayV).E) != n {
-			m.unsupported("SliceToArrayPointer on sub-slice")
+			// view object sharing the backing store window
+			base := s.arr.val.(*ArrayV)
+			view := m.newObj(&ArrayV{E: base.E[s.off : s.off+n : s.off+n]}, nil, "array-view")
+			view.epoch = s.arr.epoch
+			m.set(fr, in, &Ptr{obj: view})
+			fr.pc++
+			return
 		}
 		m.set(fr, in, &Ptr{obj: s.arr})
 		fr.pc++
